@@ -42,11 +42,15 @@ def C15(tier):
              cases_from=["MC_Partition_emit"], params={"strides": "1/-3" if tier == "quick" else "1/2/-1/-3"}),
         dict(name="random_dev", family="sort", trace="Trace_Sort", trace_constants=FIX, profile="dev", chunk=5000,
              gen=dict(count=(3000, 30000), params={"kinds": "partition", "oor_den": "0"})),
+        # lengths around multiples of 64 (where block-wise partition schemes change behaviour)
+        dict(name="block_lengths", family="sort", trace="Trace_Sort", trace_constants=FIX, profile="release", chunk=400,
+             gen=dict(count=(2400, 12000), params={"kinds": "partition", "oor_den": "0", "long": "2"})),
     ]
     return dict(models=models, stages=stages, nontrivial=sort_nontrivial, exhaustive=True,
                 rule="every canonical weak-order pattern of length 1..%d x every in-range pivot position (emitted by TLC from "
                      "MC_Partition_emit) replayed on strides 1,2,-1,-3 in dev and release builds, plus randomized lanes up to "
-                     "40 (quick) / 64 (thorough) elements; an observation is non-trivial when the lane has >= 2 elements; distinct = distinct "
+                     "40 (quick) / 64 (thorough) elements (one in five on a shared ArcArray1 handle or a borrowing CowArray) and lanes of "
+                     "63..257 elements around the multiples of 64; an observation is non-trivial when the lane has >= 2 elements; distinct = distinct "
                      "observation records" % n_emit,
                 assumptions=SORT_ASSUME, trusted=["rank projection of lane contents (sort + dedup)"])
 
